@@ -1611,7 +1611,12 @@ def _parse_function(
     child_ctx: Dict[str, object] = dict(ctx)
     child_ctx["vars"] = dict(ctx.get("vars", {}))
     child_ctx["var_types"] = dict(ctx.get("var_types", {}))
-    child_ctx["var_declared"] = set(ctx.get("var_declared", set()))
+    # a typed variant requested while another helper body is being parsed starts from
+    # the names declared outside that helper: its locals are not ours
+    child_ctx["var_declared"] = set(
+        ctx.get("_function_outer_declared", ctx.get("var_declared", set()))
+    )
+    child_ctx["_function_outer_declared"] = set(child_ctx["var_declared"])
     child_ctx["_base_declared"] = set(child_ctx["var_declared"])
     child_ctx["globals"] = ctx.setdefault("globals", [])
     child_ctx["helpers"] = helpers_set
